@@ -1,7 +1,7 @@
 (* Entry points of the executable model, by name. One dispatcher so that the OCaml driver and
    the in-Coq case files need no per-function glue. *)
 From Coq Require Import ZArith NArith List String Bool.
-From Sia Require Import Prim.Result Prim.Tok Currency.Model Merkle.Tree Merkle.Forest Merkle.Acc Merkle.Rhp Policy.Model Pow.Model Codec.Schema Codec.Shape Codec.Irregular Gen.Schemas Ledger.Types Ledger.Mid Ledger.Validate Ledger.Apply Hash.Ids Merkle.Multi Gateway.Outline Rhp4.Model Codec.Size Gen.Limits Codec.Framing Text.Hex Text.Currency Text.PolicyText.
+From Sia Require Import Prim.Result Prim.Tok Currency.Model Merkle.Tree Merkle.Forest Merkle.Acc Merkle.Rhp Policy.Model Pow.Model Codec.Schema Codec.Shape Codec.Irregular Gen.Schemas Codec.Wire Ledger.Types Ledger.Mid Ledger.Validate Ledger.Apply Hash.Ids Merkle.Multi Gateway.Outline Rhp4.Model Codec.Size Gen.Limits Codec.Framing Text.Hex Text.Currency Text.PolicyText.
 Import ListNotations.
 Open Scope string_scope.
 Open Scope list_scope.
@@ -229,6 +229,7 @@ Section Dispatch.
       let found := match find_type tname gen_types with
                    | Some ed => Some ed
                    | None => if (tname =? "types.V1Currency") || (tname =? "types.V1SiafundOutput") || (tname =? "types.SpendPolicy")
+                                || (tname =? "types.V2FileContractResolution") || (tname =? "types.V2Transaction")
                              then Some (HNamed tname, HNamed tname) else None
                    end in
       match found with
@@ -237,7 +238,7 @@ Section Dispatch.
         if name =? "c11.recode" then
           Some (match to_schema d, to_schema e with
                 | Some sd, Some se =>
-                  match dec recog sd b with
+                  match dec recog_all sd b with
                   | Some (v, rest) => [TZ 0; TB (enc se v); tnat (List.length rest)]
                   | None => [TZ 1]
                   end
@@ -245,7 +246,7 @@ Section Dispatch.
                 end)
         else if name =? "c11.decode" then
           Some (match to_schema d with
-                | Some sd => match dec recog sd b with Some _ => [TZ 0] | None => [TZ 1] end
+                | Some sd => match dec recog_all sd b with Some _ => [TZ 0] | None => [TZ 1] end
                 | None => [TZ 3]
                 end)
         else None
@@ -272,12 +273,12 @@ Section Dispatch.
           match to_schema d, to_schema de with
           | Some so, Some se =>
             if resp then
-              match read_response recog (N.to_nat (N.min lim (N.of_nat (List.length stream)))) se so stream with
+              match read_response recog_all (N.to_nat (N.min lim (N.of_nat (List.length stream)))) se so stream with
               | Some (inl _, _) => [TZ 2]        (* delivered as an error *)
               | Some (inr _, _) => [TZ 0]
               | None => [TZ 1]
               end
-            else match read_limited recog (N.to_nat (N.min ml (N.of_nat (List.length stream)))) so stream with Some _ => [TZ 0] | None => [TZ 1] end
+            else match read_limited recog_all (N.to_nat (N.min ml (N.of_nat (List.length stream)))) so stream with Some _ => [TZ 0] | None => [TZ 1] end
           | _, _ => [TZ 3]
           end
         | _, _, _, _ => [TZ 3]
